@@ -19,11 +19,13 @@ import GT.Lemmas.RepDerived
 import GT.Lemmas.Fox
 import GT.Lemmas.Names
 import GT.Lemmas.Sym2Rep
+import Mathlib.Data.ZMod.Basic
+import Mathlib.Tactic.FinCases
 
 set_option linter.unusedSectionVars false
 
 namespace GT.C05
-open GT GT.Rep Matrix
+open GT GT.RepW GT.RepW.Rep Matrix
 
 variable {n m : ℕ} {R S : Type} [Inhabited R] [CommRing R] [Inhabited S] [CommRing S]
 
@@ -381,11 +383,53 @@ example : ∃ τ A, exRep.tensorProduct Rep.invertZ exRep = .ok τ ∧ exRep.val
     ?_ ?_ ?_ ?_ ["a", "B"] ?_ hA hA).1⟩
   all_goals (rw [exRep_asymGens]; decide)
 
-/-- symmetric square over ℚ (where `1/2` exists) -/
-private def exQ : Rep 2 ℚ :=
-  { gens := [("a", DMat.ofMatrix !![1, 1; 0, 1]), ("A", DMat.ofMatrix !![1, -1; 0, 1])] }
+/-! symmetric square over `ZMod 3`, where `2·2 = 1` (and everything reduces by `rfl`) -/
 
-example : ∃ σ, exQ.symmetricSquare (1 / 2) Rep.invertG Rep.invertG = .ok σ := ⟨_, rfl⟩
+private def inv3 {k : ℕ} (A : DMat k k (ZMod 3)) : Option (DMat k k (ZMod 3)) :=
+  let d := A.toMatrix.det
+  if d * d = 1 then some (DMat.ofMatrix (d • A.toMatrix.adjugate)) else none
+
+private theorem inv3_ok {k : ℕ} : InvertOK (inv3 (k := k)) := by
+  intro A X h
+  unfold inv3 at h
+  simp only at h
+  split_ifs at h with hd
+  cases h
+  rw [DMat.toMatrix_ofMatrix, Matrix.mul_smul, Matrix.mul_adjugate, smul_smul, hd, one_smul]
+
+private def ex3 : Rep 2 (ZMod 3) :=
+  { gens := [("a", DMat.ofMatrix !![1, 1; 0, 1]), ("A", DMat.ofMatrix !![1, 2; 0, 1])] }
+
+private theorem ex3_genM (g : Gen) :
+    ex3.genM g = if "a" = g then .ok !![1, 1; 0, 1] else if "A" = g then .ok !![1, 2; 0, 1]
+      else .error "KeyError" := by
+  unfold Rep.genM Rep.gen ex3
+  simp only [dget]
+  split_ifs <;> simp [Except.map]
+
+private theorem ex3_coherent : ex3.Coherent := by
+  intro g A h
+  have hinv : ex3.inv = invertGen := rfl
+  have e1 : invertGen "a" = "A" := by decide
+  have e2 : invertGen "A" = "a" := by decide
+  rw [ex3_genM] at h
+  rw [hinv]
+  split_ifs at h with h1 h2
+  · subst h1; cases h
+    refine ⟨!![1, 2; 0, 1], by rw [ex3_genM, e1]; rfl, ?_, ?_⟩ <;>
+      (ext i j; fin_cases i <;> fin_cases j <;> rfl)
+  · subst h2; cases h
+    refine ⟨!![1, 1; 0, 1], by rw [ex3_genM, e2]; rfl, ?_, ?_⟩ <;>
+      (ext i j; fin_cases i <;> fin_cases j <;> rfl)
+
+example : ∃ σ A, ex3.symmetricSquare 2 inv3 inv3 = .ok σ ∧ ex3.value ["a", "a", "A"] = .ok A ∧
+    σ.value ["a", "a", "A"] = .ok (Rep.symH 2 A) := by
+  obtain ⟨σ, hσ⟩ : ∃ σ, ex3.symmetricSquare 2 inv3 inv3 = .ok σ := ⟨_, rfl⟩
+  obtain ⟨A, hA⟩ : ∃ A, ex3.value ["a", "a", "A"] = .ok A := ⟨_, rfl⟩
+  have hasym : ex3.asymGens = ["a"] := by decide
+  refine ⟨σ, A, hσ, hA, (symmetric_square_hom (by decide) inv3_ok inv3_ok hσ ex3_coherent
+    (by rw [hasym]; exact ⟨by decide, by decide, by decide⟩) ?_ ?_ _ ?_ hA).1⟩
+  all_goals (rw [hasym]; decide)
 
 /-- subgroup generated by `x = ab`, `y = bA` -/
 example : ∃ σ A, exRep.subgroup Rep.invertZ [("x", ["a", "b"]), ("y", ["b", "A"])] true [] = .ok σ ∧
